@@ -439,6 +439,16 @@ func (env *Env) fieldOf(base TV, name string) TV {
 	if base.T == nil {
 		return env.fail("selector %s on untyped value", name)
 	}
+	if tp, ok := base.T.(*types.Tuple); ok {
+		if vs, ok := base.V.(VStruct); ok {
+			for i := 0; i < tp.Len() && i < len(vs.F); i++ {
+				if name == fmt.Sprintf("r%d", i) || (tp.At(i).Name() != "" && tp.At(i).Name() == name) {
+					return TV{vs.F[i], tp.At(i).Type()}
+				}
+			}
+		}
+		return env.fail("no tuple component %s", name)
+	}
 	obj, index, _ := types.LookupFieldOrMethod(base.T, true, env.pkg, name)
 	fv, ok := obj.(*types.Var)
 	if !ok || !fv.IsField() {
@@ -568,6 +578,32 @@ func (env *Env) call(e *ast.CallExpr) TV {
 				return env.fail("typeIs(x, T)")
 			}
 			return boolTV(Eq(a.Tag, IntLit(x.eng.typeTag(t))))
+		case "uf":
+			// uf("name", x...): uninterpreted integer function of the (interface/ref/int) arguments
+			lit, ok := args[0].(*ast.BasicLit)
+			if !ok {
+				return env.fail("uf needs a literal name")
+			}
+			name, _ := strconv.Unquote(lit.Value)
+			var ts []Term
+			var sorts []Sort
+			for _, a := range args[1:] {
+				v := env.expr(a)
+				switch vv := v.V.(type) {
+				case VIface:
+					ts = append(ts, vv.Tag, vv.Val)
+					sorts = append(sorts, SInt, SInt)
+				default:
+					t, ok := tvTerm(v)
+					if !ok {
+						return env.fail("uf argument")
+					}
+					ts = append(ts, t)
+					sorts = append(sorts, t.Sort)
+				}
+			}
+			f := x.vc.Fun("uf|"+name, sorts, SInt)
+			return TV{VTerm{app(SInt, f, ts...)}, nil}
 		case "extern":
 			// extern(x): the dynamic type of x is not a type of this package (or x is nil)
 			a, ok := env.expr(args[0]).V.(VIface)
